@@ -1,4 +1,4 @@
-import DnpProofs.Lemmas.Consistent
+import DnpProofs.Lemmas.Consistent2
 import DnpProofs.Lemmas.Store
 set_option linter.unusedSectionVars false
 /-!
@@ -31,10 +31,13 @@ theorem npBinary_appends (n : String) (f : α → α → α) (b : Data κ α) :
     subst h
     exact ⟨["args", "kwargs"], [], rfl⟩
 
-theorem npReduce_appends (n : String) (f : List α → α) (ax : Axis) {d r : Data κ α}
+theorem npReduce_appends (n : String) (f : List α → α) (ax : Axis) {d r : Data κ α} (hc : d.Consistent)
     (h : d.npReduce n f ax = .ok (.inl r)) : r.hist = d.hist ++ [("numpy." ++ n, ["axis"])] := by
   unfold npReduce at h
   cases ax with
+  | tuple items =>
+    obtain ⟨_, _, _, _, _, _, _, hh, _⟩ := npReduce_tuple_spec n f hc (by unfold npReduce; exact h)
+    exact hh
   | none => simp at h
   | name s =>
     simp only at h
